@@ -260,6 +260,24 @@ def equal(p, q):
     return is_zero(add(p, q, -1))
 
 
+def sqrt_of(a):
+    """sqrt(a) with even powers of the positive constant pi (and rational squares) taken out of the radicand"""
+    a = reduce_trig(a)
+    if not a:
+        return {}
+    PI = ('sym', 'pi')
+    emin = None
+    for m in a:
+        e = dict(m).get(PI, 0)
+        emin = e if emin is None else min(emin, e)
+    k = (emin // 2) if emin >= 0 else -((-emin) // 2)
+    out = const(1)
+    if k:
+        a = mul(a, sym('pi', -2 * k))
+        out = sym('pi', k)
+    return mul(out, atom(('fn', 'sqrt', (canon(a),))))
+
+
 # --------------------------------------------------------------------------
 # terms -> poly
 # --------------------------------------------------------------------------
@@ -331,8 +349,7 @@ def from_term(t, env=None):
         if name in ('loop', 'loopvar', 'elemstore') or name.startswith('container:'):
             return atom(('fn', name, tuple(canon(from_term(x, env)) if x[0] not in ('unk',) else canon(sym('?unk')) for x in args)))
         if name == 'sqrt' and len(args) == 1:
-            a = reduce_trig(from_term(args[0], env))
-            return atom(('fn', 'sqrt', (canon(a),)))
+            return sqrt_of(from_term(args[0], env))
         return atom(('fn', name, tuple(canon(reduce_trig(from_term(a, env))) for a in args)))
     if k == 'apply':
         return atom(('app', canon(from_term(t[1], env)), tuple(canon(reduce_trig(from_term(a, env))) for a in t[2])))
